@@ -15,8 +15,9 @@
     `registerRank`, one `addUse(.., "iter")` per element *before* its body, `incIter` after it,
     `endIter`; `Payload.__mul__/__iadd__`: `incCount`),
   * the one collecting-only statement that can abort the kernel: `lshift_iterator`'s
-    `assert insert_pos is not None` (first source element, destination fiber not empty, declared
-    shape unknown),
+    `assert insert_pos is not None or not (inserting and a_write_traced)` (evaluated at the first
+    source element when the destination fiber is not empty: the declared shape is needed to address
+    the staging area of out-of-order insertions in the write trace),
   * ghost marks for what actually happened: a loop body started (`body`), a payload operator ran (`pop`).
   The collecting-only code only *reads* kernel data and *calls* `Metrics` (its one write,
   `setSavedPos`, is never read back: every later search passes an explicit `start_pos`), so the
@@ -56,7 +57,9 @@ inductive KEv
   | call (op : MOp)
   | body (rank : String)
   | pop (o : POp)
-  | assertShape (rank : String) (ok : Bool)
+  /-- `lshift_iterator` reaches its collecting-only assertion at `rank`: was the output created with a
+      shape, and does the loop insert (first source coordinate below the destination's last one) -/
+  | assertShape (rank : String) (declared inserting : Bool)
   deriving DecidableEq, Repr
 
 /-- elements a compressed rank presents, with their storage position -/
@@ -139,7 +142,9 @@ def runK (declared : Bool) : List String → List String → ATree → List Oper
           (fun (_ : Int) (cur : Tree Int Int d) (ch : List (Nat × ATree)) => castT d (sub cur ch).1 cur)
           (show List (Int × Tree Int Int d) from zf) 0 src
         let asrt : List KEv :=
-          if !(show List (Int × Tree Int Int d) from zf).isEmpty && !src.isEmpty then [.assertShape v declared] else []
+          match src.head?, (show List (Int × Tree Int Int d) from zf).getLast? with
+          | some b, some e => [.assertShape v declared (decide (b.1 < e.1))]
+          | _, _ => []
         let evs := r.2.zipIdx.flatMap (fun y => iterEv v y.1.1 y.2 (sub y.1.2.1 y.1.2.2).2)
         (⟨d + 1, r.1⟩, [.call (.registerRank v)] ++ asrt ++ evs ++ [.call (.endIter v)])
       | _ => (zt, [])
@@ -156,9 +161,15 @@ def runK (declared : Bool) : List String → List String → ATree → List Oper
 def callsOf (evs : List KEv) : List MOp :=
   evs.filterMap (fun e => match e with | .call op => some op | _ => none)
 
-/-- no collecting-only assertion fails -/
-def assertsOk (evs : List KEv) : Bool :=
-  evs.all (fun e => match e with | .assertShape _ ok => ok | _ => true)
+/-- no collecting-only assertion fails:
+    `assert insert_pos is not None or not (inserting and a_write_traced)`; `wtr rank` = the
+    destination's write trace at that rank is being collected -/
+def assertsOk (wtr : String → Bool) (evs : List KEv) : Bool :=
+  evs.all (fun e => match e with | .assertShape v d ins => d || !(ins && wtr v) | _ => true)
+
+/-- the write trace of the populate at `rank`: in these loop nests the destination always draws label 0
+    (`getLabel` is called first by the `<<` of the loop, and `endIter` resets the labels) -/
+def wtrOf (keys : List TKey) (rank : String) : Bool := keys.contains (rank, "populate_write_0")
 
 structure Kernel where
   loops : List String
@@ -172,14 +183,15 @@ def runPlain (k : Kernel) (z : ATree) (ops : List Operand) : ATree := (runK k.de
 /-- collection on, inside a session whose state is `s`: `none` = the kernel aborted -/
 def runCollect (k : Kernel) (z : ATree) (ops : List Operand) (s : MState) : Option (ATree × MState) :=
   let r := runK k.declared k.loops k.out z ops
-  if assertsOk r.2 then (runOps (callsOf r.2) s).map (fun x => (r.1, x.2)) else none
+  if assertsOk (fun v => dhas s.traces (v, "populate_write_0")) r.2 then
+    (runOps (callsOf r.2) s).map (fun x => (r.1, x.2)) else none
 
 /-- a whole collecting session around the kernel: `beginCollect(p)`, `trace(rank, type)` for `keys`,
     the kernel, `endCollect()` — from whatever state `s₀` earlier sessions left behind -/
 def kernelSession (k : Kernel) (z : ATree) (ops : List Operand) (p : String) (keys : List TKey) (s₀ : MState) :
     Option (ATree × MState) :=
   let r := runK k.declared k.loops k.out z ops
-  if assertsOk r.2 then
+  if assertsOk (wtrOf keys) r.2 then
     (runOps (openOps p keys ++ callsOf r.2 ++ [.endCollect]) s₀).map (fun x => (r.1, x.2))
   else none
 
